@@ -204,9 +204,51 @@ def rule_r2(chk):
     chk.ob("C14-R2", "series._hp.Inlay.hpf_gap", ok, "takes position 2 (gap)", m.loc(g))
 
 
+def rule_r3(chk):
+    from .. import effects
+    chk.rule("C14-R3", "variants are filtered independently: the filter object built once in _data_hpf is applied to every variant in a "
+             "loop, so filter_data (and every method it calls on self) leaves the object's state untouched: no rebinding, cell "
+             "store, in-place operator or in-place ndarray method on self.<attr> or on an uncopied alias of it", floor=2)
+    n_ex = effects.self_check()
+    m = chk.repo.mod(HMOD)
+    d = m.func("_data_hpf")
+    chk.saw(m, "_data_hpf")
+    # the object is created outside the loop over variants and used inside it
+    created = [n for n in walk_no_nested(d) if isinstance(n, ast.Assign) and isinstance(n.value, ast.Call)
+               and dotted(n.value.func) == "_ConstrainedHodrickPrescottFilter" and isinstance(n.targets[0], ast.Name)]
+    loops = [n for n in walk_no_nested(d) if isinstance(n, ast.For)]
+    reused = []
+    for c in created:
+        nm = c.targets[0].id
+        for lp in loops:
+            inside_create = any(x is c for x in ast.walk(lp))
+            uses = [x for x in ast.walk(lp) if isinstance(x, ast.Call) and isinstance(x.func, ast.Attribute) and isinstance(x.func.value, ast.Name) and x.func.value.id == nm]
+            if uses and not inside_create:
+                reused += [(nm, u.func.attr) for u in uses]
+    meths = m.methods("_ConstrainedHodrickPrescottFilter")
+    if not created:
+        chk.undecided("C14-R3", "series._hp._data_hpf[filter object]", "construction of the filter object not recognised", m.loc(d))
+        return
+    if not reused:
+        chk.ok("C14-R3", "series._hp._data_hpf[filter object]", "a fresh filter object is built per variant; nothing is shared", m.loc(d))
+        return
+    chk.ok("C14-R3", "series._hp._data_hpf[filter object]", f"one object, called per variant: {sorted(set(reused))}; effect rule self-check on {n_ex} examples", m.loc(d))
+    for nm, entry in sorted(set(reused)):
+        muts, seen = effects.self_mutations(meths, entry)
+        for q in seen:
+            chk.saw(m, f"_ConstrainedHodrickPrescottFilter.{q}")
+        if muts:
+            chain, a, how, line = muts[0]
+            chk.bad("C14-R3", f"series._hp._ConstrainedHodrickPrescottFilter.{entry}[pure]",
+                    f"{'.'.join(chain)} changes self.{a} ({how}, line {line}); the next variant is filtered with the altered object", f"{m.rel}:{line}")
+        else:
+            chk.ok("C14-R3", f"series._hp._ConstrainedHodrickPrescottFilter.{entry}[pure]", f"no write to self state in {seen}", m.loc(meths[entry]))
+
+
 def run(chk):
     rule_r1(chk)
     rule_r2(chk)
+    rule_r3(chk)
     chk.assumptions = [
         "slicing and element-wise exp/log commute (numpy semantics)",
         "optimality of the trend, exact constraint satisfaction, bridging of missing observations and the l1 optimality "
